@@ -601,6 +601,11 @@ func mkLookup(n calleeNames, args []Val, res Val) func(string, bool) (CVal, bool
 	}
 }
 
+// hidden: a clause marked [Cxx ONLY] is not a hypothesis in the check of a property it does not list
+func (c *Ctx) hidden(cl Clause) bool {
+	return cl.Only && c.w.onlyProp != "" && !hasProp(cl.Props, c.w.onlyProp)
+}
+
 func (c *Ctx) contractCall(fr *Frame, ct *Contract, callee *ssa.Function, com *ssa.CallCommon, args []Val, resT types.Type, st *State, reach string, pos token.Pos) Val {
 	if ct.Assumed {
 		why := "assumed contract: " + ct.Name
@@ -681,6 +686,9 @@ func (c *Ctx) contractCall(fr *Frame, ct *Contract, callee *ssa.Function, com *s
 		}
 	}
 	for _, en := range ct.Ensures {
+		if c.hidden(en) {
+			continue
+		}
 		c.assume(reach, c.evalBool(penv, en.Expr, en.Text))
 	}
 	for _, vn := range ct.Views {
